@@ -69,3 +69,48 @@ func VerifC13SendVia() {
 	_ = noiseutil.EncryptLockNeeded
 	verifObserve("sealed", uint64(len(vc.encN)))
 }
+
+// ---- two concurrent relay senders under the nonce-ordering lock ----
+//
+// When the cipher checks that nonces only grow (EncryptLockNeeded), a sender must reserve its counter and seal
+// inside one writeLock critical section. A second sender is modelled at the only point where it can get in
+// between: this unit replaces (*sync.Mutex).Lock by c13Lock, which lets the other sender run its complete send
+// (lock, reserve, seal, unlock) just before the lock is granted. Anything the first sender did BEFORE asking for
+// the lock (e.g. reserving a counter) is then overtaken.
+
+var c13Other func()
+
+func c13Lock(m *sync.Mutex) {
+	if c13Other != nil {
+		o := c13Other
+		c13Other = nil
+		o()
+	}
+}
+
+func VerifC13Concurrent() {
+	old := noiseutil.EncryptLockNeeded
+	noiseutil.EncryptLockNeeded = true
+	defer func() { noiseutil.EncryptLockNeeded = old }()
+	vc := &vCipher{}
+	via := &HostInfo{localIndexId: 5, vpnAddrs: []netip.Addr{netip.AddrFrom4([4]byte{10, 0, 0, 2})}, ConnectionState: &ConnectionState{eKey: vc}}
+	c0 := verifU64("start")
+	verifAssume(c0 < RejectAfterMessages-3)
+	via.ConnectionState.messageCounter.Store(c0)
+	f := &Interface{l: c13Log, connectionManager: &connectionManager{relayUsed: map[uint32]struct{}{}, relayUsedLock: &sync.RWMutex{}}, messageMetrics: &MessageMetrics{}}
+	relay := &Relay{RemoteIndex: 77, LocalIndex: 9}
+	if verifBool("other_sender_arrives") {
+		c13Other = func() {
+			_, _ = f.prepareSendVia(via, relay, make([]byte, 4), make([]byte, 12), make([]byte, 0, 64), false)
+		}
+	}
+	_, err := f.prepareSendVia(via, relay, make([]byte, 4), make([]byte, 12), make([]byte, 0, 64), false)
+	c13Other = nil
+	verifAssert(err == nil, "below the ceiling both sends succeed")
+	for i := 1; i < 3; i++ {
+		if i < len(vc.encN) {
+			verifAssert(vc.encN[i] > vc.encN[i-1], "with the nonce-ordering lock, counters reach the cipher in strictly increasing order")
+		}
+	}
+	verifObserve("sealed", uint64(len(vc.encN)))
+}
